@@ -5,5 +5,7 @@ CAP=${CAP:-5400}
 for p in ${PROPS:-C16 C18 C03 C05 C06 C04 C09 C08 C15 C17 C13 C11 C12 C20 C07 C19 C02 C10 C14 C01}; do
   start=$(date +%s)
   timeout $CAP ./check $p --tier thorough > /tmp/allt_$p.log 2>&1; rc=$?
+  [ $rc = 124 ] && pkill -f "vf[.]worker" ; sleep 1
+  mkdir -p evidence/thorough; cp evidence/$p.json evidence/thorough/$p.json 2>/dev/null
   echo "$p rc=$rc $(( $(date +%s) - start ))s $(tail -1 /tmp/allt_$p.log | cut -c1-200)"
 done
